@@ -128,6 +128,42 @@ CLAIMS = {
          "Python int() is an oracle; snappy proved but not run (not installed); the frame-level streaming API is oracle-only "
          "(known finding streaming.beginMessageFrame/compressed/raw-octets-flagged-RSV1).",
          "Coq proof (induction, invariants, vm_compute lattice sweep) + translator + correspondence run"),
+ "C05": ("5 C05",
+         "Coq invariants over arbitrary event lists of a connection-level model (states, close bookkeeping flags, timers with "
+         "absolute virtual deadlines incl. txaio batched-timer quantisation, output log): forward-only, onClose exactly once and "
+         "silence after it, at most one close frame with nothing after it, legal close payloads (encode_truncate proved to yield "
+         "well-formed UTF-8 <= 123 octets), clean-report characterisation (full statement refuted on 2 known paths, partial "
+         "theorem for every run), bounded closing with clock fairness proved, send-after-close. Close codes and timer constants "
+         "regenerated from the source. Differential run: all event sequences up to length 4 (thorough 5) over the event "
+         "alphabet x role x failByDrop x echo x timeout grid plus random walks, per-step, on Twisted Clock and an asyncio "
+         "virtual loop, plus an oracle written from the property text.",
+         "Partial: that a real reactor fires timers and the OS closes the socket is assumed (virtual clocks). Trusted: hand-"
+         "written model tied by differential runs; incoming traffic modelled as already parsed events; sync/chopped writes not "
+         "modelled. Known findings: 1-octet-peer-close-reported-clean, later-invalid-close-overwrites-report.",
+         "Coq proof by compositional invariants over (log, state) + correspondence + independent oracle"),
+ "C17": ("5 C17",
+         "Coq theorems over the same connection model: batched-timer quantisation (never late, < 1 s early), opening-handshake "
+         "timer silent/responsive, every pending dropping timeout fires by its deadline and closes the connection, Tick "
+         "completeness, bounded close/drop, no timer has any effect after CLOSED. Differential run: timelines on a 125 ms grid "
+         "with every placement of each peer reaction before/at/after each deadline for settings {0,1,2,5} s, both roles and "
+         "frameworks.",
+         "Partial: ping periodicity and per-instance responsiveness of the close and ping timers are proved only as computed "
+         "example timelines and covered by the grid runs, not as general invariants; wall-clock behaviour of real reactors is "
+         "assumed. Same trusted base as C05.",
+         "Coq invariants over a timed transition system + grid correspondence on virtual clocks"),
+ "C07": ("5 C07",
+         "Coq theorems over an executable model of parseHttpHeader, both processHandshake chains, succeedHandshake, request "
+         "rendering, wildcard origins and the connection counter: admission is exactly a declarative RFC 6455 4.2.1 + "
+         "configuration predicate (full-strength RFC line structure refuted by a witness, exact on CRLF/LF-only header blocks), "
+         "reply digest/subprotocol/extension soundness, origin patterns match the whole origin, never an escaping exception for "
+         "all octets, segmentations and oracle behaviours, own client and server interoperate under spelled-out compatibility, "
+         "connection count <= limit for all histories. latin-1 strip/lower/splitlines tables and constants regenerated from the "
+         "interpreter and source. Differential run: ~390 single mutations of valid requests/responses, arbitrary octets under "
+         "all splits, multi-connection histories, end-to-end client x server option matrix, on both frameworks.",
+         "Partial: urllib.parse, hyperlink, hashlib.sha1 and the PMCE classes are oracles (their raising behaviour included), "
+         "recorded from the real libraries in the runs. Not modelled: TLS, proxies, unix URLs. Known findings: origin not checked "
+         "for draft versions 11/12; linebreak-in-value (server and client).",
+         "Coq proof (chain = conjunction, parse-render, list induction, finite sweeps in Coq) + differential correspondence + generated tables"),
 }
 NOT_YET = {}
 
